@@ -152,3 +152,14 @@ Definition drop_id_agrees (a : zaff) (ax : axis_id) (ornts : list (option nat)) 
   | Some r, Some e => res_eqb r e
   | _, _ => false
   end.
+
+(* ---------------------------------------------------------------- batches of points (Z instance) *)
+From NV.C01 Require Import Batch.
+Definition zbatch_apply := batch_apply Z 0%Z 1%Z Z.add Z.mul.
+(* expected: None = CoordinateSystemError *)
+Definition batch_agrees (a : zaff) (rows : nat) (flat : list Z) (expected : option (list Z)) : bool :=
+  match zbatch_apply a rows flat, expected with
+  | Ok v, Some e => zlist_eqb v e
+  | Err _, None => true
+  | _, _ => false
+  end.
